@@ -20,7 +20,7 @@ EXPLANATION = ("Real OFConnection.read/send, SoftwareSwitch.rx_message, every _r
 FUNCTIONS = ["OFConnection.read/send", "SoftwareSwitchBase.rx_message/_rx_*/_stats_*/send_error/_process_actions_for_packet_from_buffer",
              "IOWorker._push_receive_data/send", "libopenflow_01 pack/unpack of all request and reply types"]
 BOUNDS = {}
-OUTSIDE = ["sequences longer than 3 (thorough: 4) requests", "multipart splitting of large replies (POX never splits)", "more than one installed flow"]
+OUTSIDE = ["sequences longer than 3 (thorough: 4) requests", "statistics replies of more than two parts", "more than one installed flow"]
 ASSUMPTIONS = ["the socket side of the IOWorker is not exercised (bytes are pushed into / read from its buffers)"]
 
 NPORTS = 4
@@ -274,6 +274,69 @@ def h_full_table(ctx, cap):
   ctx.witness('done')
 
 
+def h_oversize(ctx, total):
+  """a request the switch answers with an error, long enough that the error cannot quote it whole (a vendor message of `total` bytes; the error
+  message itself is limited to 65535): still exactly one error with the request's xid and the specified type/code, quoting a prefix of the
+  request (the specification asks for at least 64 bytes), then the barrier reply"""
+  env.get_core()
+  of = ctx.pox('pox.openflow.libopenflow_01'); swm = ctx.pox('pox.datapaths.switch'); iow = ctx.pox('pox.lib.ioworker')
+  sw = swm.SoftwareSwitch(dpid=0x42, ports=NPORTS, miss_send_len=128, max_buffers=2)
+  w = iow.IOWorker(); w.socket = env.FakeSocket(eof=False)
+  conn = swm.OFConnection(w); sw.set_connection(conn)
+  x1 = ctx.int('xid_vendor', 0, 0xffffffff); x2 = ctx.int('xid_barrier', 0, 0xffffffff); vend = ctx.int('vendor', 0, 0xffffffff)
+  w._push_receive_data(of.ofp_hello().pack()); w.send_buf = b''
+  v = of.ofp_vendor_generic(xid=x1, vendor=vend, data=b'x' * (total - 12))
+  raw = v.pack()
+  ctx.check('request size', len(raw) == total)
+  w._push_receive_data(raw)
+  b = of.ofp_barrier_request(); b.xid = x2; w._push_receive_data(b.pack())
+  ctx.check('connection stays open', not w.closed and not w._shutdown_send)
+  out = w.send_buf; msgs = []; off = 0
+  unpackers = swm.make_type_to_unpacker_table()
+  while off < len(out) and len(msgs) < 4:
+    ln = (out[off + 2] << 8) | out[off + 3]
+    msgs.append(unpackers[int(out[off + 1])](out[off:off + int(ln)], 0)[1]); off += int(ln)
+  ctx.check('one error, then the barrier reply', len(msgs) == 2 and isinstance(msgs[0], of.ofp_error) and isinstance(msgs[1], of.ofp_barrier_reply))
+  if len(msgs) == 2 and isinstance(msgs[0], of.ofp_error):
+    e = msgs[0]
+    ctx.check('error carries the request xid, BAD_REQUEST / BAD_VENDOR', ctx.And(e.xid == x1, e.type == 1, e.code == 3))
+    ctx.check('error quotes a prefix (>= 64 bytes) of the request', len(e.data) >= 64 and ctx.Eq(e.data, raw[:len(e.data)]))
+    ctx.check('barrier reply xid', msgs[1].xid == x2)
+  ctx.witness('done')
+
+
+def h_big_stats(ctx, nact):
+  """two installed flows with `nact` output actions each; a flow statistics request is answered - for 4100 actions each the two descriptions
+  (32888 bytes each) do not fit into one message, so the answer has to come in parts (OFPSF_REPLY_MORE) -, then the barrier reply"""
+  env.get_core()
+  of = ctx.pox('pox.openflow.libopenflow_01'); swm = ctx.pox('pox.datapaths.switch'); iow = ctx.pox('pox.lib.ioworker')
+  sw = swm.SoftwareSwitch(dpid=0x42, ports=NPORTS, miss_send_len=128, max_buffers=2)
+  w = iow.IOWorker(); w.socket = env.FakeSocket(eof=False)
+  conn = swm.OFConnection(w); sw.set_connection(conn)
+  x1 = ctx.int('xid_stats', 0, 0xffffffff); x2 = ctx.int('xid_barrier', 0, 0xffffffff)
+  w._push_receive_data(of.ofp_hello().pack()); w.send_buf = b''
+  for k in (1, 2):
+    fm = of.ofp_flow_mod(xid=5, priority=7, actions=[of.ofp_action_output(port=1)] * nact); fm.match.in_port = k
+    w._push_receive_data(fm.pack())
+  st = of.ofp_stats_request(body=of.ofp_flow_stats_request()); st.xid = x1; w._push_receive_data(st.pack())
+  b = of.ofp_barrier_request(); b.xid = x2; w._push_receive_data(b.pack())
+  out = w.send_buf; msgs = []; off = 0
+  unpackers = swm.make_type_to_unpacker_table()
+  while off < len(out) and len(msgs) < 6:
+    ln = (out[off + 2] << 8) | out[off + 3]
+    msgs.append(unpackers[int(out[off + 1])](out[off:off + int(ln)], 0)[1]); off += int(ln)
+  tag = ''
+  ctx.check(tag + 'the statistics request is answered before the barrier reply', len(msgs) >= 2 and isinstance(msgs[0], (of.ofp_stats_reply, of.ofp_error)) and isinstance(msgs[-1], of.ofp_barrier_reply))
+  if msgs: ctx.check('barrier reply xid', isinstance(msgs[-1], of.ofp_barrier_reply) and msgs[-1].xid == x2)
+  for m in msgs[:-1]: ctx.check('answer carries the request xid', m.xid == x1)
+  parts = [m for m in msgs[:-1] if isinstance(m, of.ofp_stats_reply)]
+  if parts:
+    ctx.check('every part but the last says that more follows', all((m.flags & 1) == 1 for m in parts[:-1]) and (parts[-1].flags & 1) == 0)
+    ctx.check('the parts together describe both flows', sorted(e.match.in_port for m in parts for e in m.body) == [1, 2] and all(len(e.actions) == nact for m in parts for e in m.body))
+    if len(parts) > 1: ctx.witness('multipart')
+  ctx.witness('done')
+
+
 def obligations(tier):
   thorough = tier != 'quick'
   ps = plans(thorough)
@@ -281,5 +344,9 @@ def obligations(tier):
                       symbolic="xids (aliasing allowed), port numbers, queue ids, table ids, stats type, vendor id, flow_mod command, buffer id, config values")
   return [Obligation('O2_full_table', h_full_table, [dict(cap=c) for c in (1, 2)], witnesses=('done',), max_decisions=20000,
                      desc='flow table at capacity: replacing ADD is silent, an ADD too many gets ALL_TABLES_FULL, barrier and statistics replies reflect it'),
+          Obligation('O3_oversize', h_oversize, [dict(total=t) for t in (200, 65523, 65524, 65535)], witnesses=('done',),
+                     desc='a rejected request too long to be quoted whole in its error: one error with its xid, a prefix quoted'),
+          Obligation('O4_big_stats', h_big_stats, [dict(nact=n) for n in (100, 4000, 4100)], witnesses=('done', 'multipart'),
+                     desc='flow statistics for an entry whose description does not fit into one message'),
           Obligation('O1_sequences', h_seq, [dict(plan=p) for p in ps], witnesses=('done', 'pipelined'), max_decisions=20000,
                      desc='request sequences through the byte-level connection: one reply/error per request, in order, with xid and specified content')]
